@@ -396,18 +396,11 @@ struct Obs {
 }
 
 impl Obs {
-    /// A failure outside the known-finding classes: it takes precedence over an earlier
-    /// known one, so that a known finding never hides anything else in the same case.
+    /// The first failure of a case is the one reported. (No known-finding class is left for
+    /// this property: H23 is repaired.)
     fn fail(&mut self, what: String) {
-        if self.oracle.is_none() || self.known.is_some() {
-            self.oracle = Some(what);
-            self.known = None;
-        }
-    }
-    fn fail_known(&mut self, what: String, class: &str) {
         if self.oracle.is_none() {
             self.oracle = Some(what);
-            self.known = Some(class.into());
         }
     }
 }
@@ -690,16 +683,7 @@ fn owned_case(ring: &mut Ring, r: &mut Rng, forced: Option<(usize, usize, usize,
             let what = format!(
                 "{}: ReadBuf {} but Vec<u8> (capacity {cap}) {} (len before: see case, op #{i})",
                 op.json(), outcome_tag(code), outcome_tag(vcode));
-            if !DBG && matches!(&op, Op::Remove(rf) if wraps(*rf)) {
-                o.fail_known(what, "remove-bound-plus-one-wraps-without-overflow-checks");
-                // Carry on from the buffer's state, so that the remaining calls are still compared.
-                let sb = slot_bytes(b, cap);
-                vec.clear();
-                vec.extend_from_slice(&sb);
-                vec.truncate(len);
-            } else {
-                o.fail(what);
-            }
+            o.fail(what);
         } else if val != vval {
             o.fail(format!("{}: returned {val}, Vec<u8> gives {vval}", op.json()));
         }
@@ -785,12 +769,6 @@ fn owned_case(ring: &mut Ring, r: &mut Rng, forced: Option<(usize, usize, usize,
     }
 }
 
-/// `start + 1` or `end + 1` overflows `usize`.
-fn wraps(rf: RForm) -> bool {
-    let (a, b) = rf.bounds();
-    matches!(a, Bound::Excluded(usize::MAX)) || matches!(b, Bound::Included(usize::MAX))
-}
-
 static LAST_PANIC: std::sync::Mutex<Option<String>> = std::sync::Mutex::new(None);
 
 pub fn run(args: &Args) -> i32 {
@@ -809,7 +787,9 @@ pub fn run(args: &Args) -> i32 {
     let mut ring = Ring::new().expect("cannot create an io_uring ring");
     let root = Rng::new(args.seed);
     let mut cases = Vec::with_capacity(n + 16);
-    // Corpus: the boundary forms on a small buffer, and the overflowing bounds.
+    // Regression corpus, runs first: the bounds whose `+ 1` overflows `usize` (H23: before the
+    // repair a build without overflow checks resolved them to valid ranges; every build must
+    // now reject them like `Vec::drain`), then the boundary forms on small buffers.
     let m = usize::MAX;
     let corpus: Vec<(usize, usize, usize, Vec<Op>)> = vec![
         (2, 8, 5, vec![Op::Remove(RForm::Pair(Bound::Excluded(m), Bound::Unbounded))]),
@@ -833,8 +813,15 @@ pub fn run(args: &Args) -> i32 {
         let is_corpus = forced.is_some();
         let res = panic::catch_unwind(AssertUnwindSafe(|| {
             if is_corpus {
+                let h23 = forced.as_ref().is_some_and(|f| f.3.iter().any(|op| match op {
+                    Op::Remove(rf) => {
+                        let (a, b) = rf.bounds();
+                        a == Bound::Excluded(usize::MAX) || b == Bound::Included(usize::MAX)
+                    }
+                    _ => false,
+                }));
                 let mut case = owned_case(&mut ring, &mut r, forced);
-                case.tags.push("corpus".into());
+                case.tags.push(if h23 { "corpus:H23".into() } else { "corpus".into() });
                 case
             } else if r.chance(1, 12) {
                 unowned_case(&mut ring, &mut r)
